@@ -29,7 +29,7 @@ CLAIMED = {
         ref="DESIGN.md section 6, C04"),
     "C05": dict(
         text="Coq theorem is_mask_spec for all 2^32 values (accepts exactly ones-then-zeros / zeros-then-ones), should_anonymize characterisation on the model, and no-collision: preserved networks are registered as preserved prefixes by the constructor so outside never maps inside, for every salt/B/list.",
-        note="Trusted: Coq kernel; hand model of _is_mask/should_anonymize/__init__ tied by correspondence (all 66 masks, all one-bit perturbations, random values; network boundary addresses). Text-level 'appear exactly as written' is covered with the text pipeline (C06/C12). Axioms: none.",
+        note="Trusted: Coq kernel; hand model of _is_mask/should_anonymize/__init__ tied by correspondence (all 66 masks, all one-bit perturbations, random values; network boundary addresses). Text level: the IPv4 callback returns the matched text itself and leaves the state unchanged for mask-shaped or preserved values (theorem on the model's ip_match). Axioms: none.",
         technique="Coq proof (bit-level characterisation of the mask test; pinned-prefix no-collision) + correspondence",
         ref="DESIGN.md section 6, C05"),
     "C18": dict(
@@ -40,12 +40,12 @@ CLAIMED = {
 
     "C06": dict(
         text="Coq theorems: for every regex of the subset, substitution replaces exactly non-empty, ordered, disjoint spans and every matched character belongs to a consuming class of the pattern; on the IPv4/IPv6 patterns regenerated from the source each run, a match covers only digits and dots / address characters (never whitespace, terminators, other text). The executable model (regex engine on generated ASTs, ipaddress text, memoised mapping) is compared with the real pipeline on template lines and on ALL short strings over a boundary alphabet; an independent token scanner + reference mapping is the oracle.",
-        note="Partial: 'matched spans are exactly the standalone valid tokens' is not a theorem (sweep + oracle). Known finding D1b (IPv4-tail forms the pattern does not list). Trusted: Coq kernel incl. vm_compute, rxgen + re._parser, hand model tied by correspondence.",
+        note="IPv4: characterised in both directions as theorems, for every line (model/Ipv4Token.v through lib/RxDen.v / RxLang.v: every span the engine or finditer reports is a standalone dotted quad with parts 0..255, a whole token; every standalone dotted quad is matched, the engine's first choice covers exactly it, finditer reports it; the pass rewrites exactly those spans and copies the rest). IPv6: only the boundary half is a theorem (matches are delimited); which forms its twelve-alternative core accepts is decided by sweep + oracle (known finding D1b lives there). That the matched token then parses (make_addr through the drop-zeros substitution) is not proved. Trusted: Coq kernel incl. vm_compute, rxgen + re._parser (the AST shape is re-checked by computation on every run), hand model tied by correspondence.",
         technique="Coq proof (generic regex span/alphabet theorems + facts decided on regenerated ASTs) + model/implementation correspondence incl. exhaustive short strings",
         ref="DESIGN.md section 6, C06"),
     "C07": dict(
         text="Coq theorem (value level): the pseudonym allocator's outputs are invariant under any injective class-preserving renaming of secrets, over all request histories; all 55+ generated line patterns are non-nullable. The full secrets stage is an executable model over the regenerated regex groups, compared byte-for-byte with the implementation; paired runs differing only in secret values must give identical output and INFO+ logs.",
-        note="Partial: recognition of line forms by the generated regexes is not proved (correspondence + paired-run search). Known findings D11, D12. passlib md5/sha512 are oracles.",
+        note="Partial: recognition of the keyword line forms by the generated regexes is not proved (correspondence + paired-run search); proved on the generated table: every pattern starts with the common look-behind (a secrets match begins at a word boundary), and a standalone $9$ / $1$ hash-shaped token makes its catch-all pattern match on every line (model/HashToken.v). Known findings D11, D12, D19. passlib md5/sha512 are oracles.",
         technique="Coq proof (allocator non-interference by induction over histories) + correspondence + relational (paired-run) search",
         ref="DESIGN.md section 6, C07"),
     "C08": dict(
@@ -60,12 +60,12 @@ CLAIMED = {
         ref="DESIGN.md section 6, C09"),
     "C10": dict(
         text="Coq theorem (token model): after leftmost-first substitution of a case-insensitive alternation of literal words by six-hex-character pseudonyms no listed good word occurs in the output, for every case folding, pseudonym function and order of the alternation; reserved tokens / reserved secrets are returned unchanged by the model. Correspondence on generated word lists under several hash seeds; case-insensitive search of the output.",
-        note="Partial: the token model of lib/Words.v is tied to model/TextModel.v only through the correspondence with the code. Words with spaces / regex metacharacters / non-ASCII are outside the model (implementation-only search). D15 fixed.",
+        note="At regex level, for every word list, line and position: a match of the word pattern is a case variant of one listed word, and every occurrence of such a variant makes the pattern match (model/WordToken.v); on a sample list the model's alternation reports what the regenerated AST of the source's pattern reports. Partial: the no-survivor theorem is on the token model of lib/Words.v, tied to model/TextModel.v only through the correspondence with the code. Words with spaces / regex metacharacters / non-ASCII are outside the model (implementation-only search). D15 fixed.",
         technique="Coq proof (no-survivor theorem over token substitution) + correspondence under multiple PYTHONHASHSEEDs",
         ref="DESIGN.md section 6, C10"),
     "C11": dict(
         text="Coq theorem over the boundary table regenerated from the source: for EVERY hash value and every AS number the replacement is in the same block; out-of-range rejected; hash non-negative; run-time pattern non-nullable. Correspondence with the hash value forced at every block boundary; text-level oracle = independent digit-run scanner.",
-        note="That matches are exactly standalone listed numerals is decided by the scanner oracle, not a theorem.",
+        note="That matches are exactly the standalone listed numerals is a theorem in both directions, for every list, line and position, up to finditer and the whole pass (model/AsToken.v); the pattern template is the model's as_rx, shown to report what the regenerated AST of the source's pattern reports on one sample list; for other lists the tie text -> AST is the correspondence (digit-run scanner oracle).",
         technique="Coq proof (arithmetic over generated table, all hash values) + forced-hash correspondence + digit-run oracle",
         ref="DESIGN.md section 6, C11"),
     "C12": dict(
